@@ -189,3 +189,19 @@ Proof.
   - destruct H as [<-|[]]. exists f. cbn [In v_alt v_s v_e]. repeat split; auto; lia.
   - apply IH in H as (g & Hg & R). exists g. split; [right; auto|exact R].
 Qed.
+
+
+(* ------------------------------------------------------------------ obliged side: the set is its statement *)
+Lemma must_circ_set_iff_lemma : forall c x p,
+  In p (must_circ_set c x) <->
+  (exists h, (h = [] \/ (In h (haplotypes true (circ_vars false c)) /\ circ_must_hap h = true)) /\
+             In p (circ_must_products c h)) /\
+  ~ In p (ref_products x) /\ ~ In p (may_set x) /\ ~ In p (c_pool c).
+Proof.
+  intros c x p. unfold must_circ_set. cbn zeta. rewrite filter_In, in_flat_map, !andb_true_iff, !negb_true_iff, !sp_mem_seq_false.
+  split.
+  - intros [(h & Hh & Hp) [[A B] C]]. split; auto. exists h. split; auto.
+    destruct Hh as [<-|Hh]; [left; reflexivity|right]. apply filter_In in Hh. exact Hh.
+  - intros [(h & Hh & Hp) (A & B & C)]. split; auto. exists h. split; auto.
+    destruct Hh as [->|Hh]; [left; reflexivity|right]. apply filter_In. exact Hh.
+Qed.
